@@ -207,7 +207,17 @@ def c18(cfg):
     tables = pristine
     for hf in herm_flags:
         series = [_to_series(handed[t], shapes[t], npar, name=f"F{t}") for t in range(nf)]
-        prod = cauchy_dot_product(*series, hermitian=hf)
+        if cfg.get("mixed_name_containers"):
+            # the same parameter names held in a list by one factor and in a tuple by the other (both occur among the library's own outputs)
+            for t, S in enumerate(series):
+                names = [f"lambda_{k}" for k in range(npar)]
+                S.dimension_names = names if t % 2 == 0 else tuple(names)
+        try:
+            prod = cauchy_dot_product(*series, hermitian=hf)
+        except ValueError as e:
+            rec.direct_violation(f"cauchy_dot_product rejected compatible factors (hermitian={hf})", f"raised-ValueError:nf={nf}:mode={mode}:params={npar}:definition",
+                                 {"exception": str(e)[:200]}, reproduced=True)
+            continue
         for idx in requests:
             try:
                 lib = prod[idx]
@@ -433,6 +443,7 @@ def configs(tier, seed):
         add(blockdims=[[1, 1], [2, 1], [2, 1], [1, 1]], mode="XdBX", schedule=sched)
         add(blockdims=[[1, 1], [1, 1], [1, 1]], mode="XdX", nparams=2, schedule=sched)
         add(blockdims=[[1, 1], [1, 1], [1, 1], [1, 1]], mode="XdBX", nparams=2, schedule=sched)
+    add(blockdims=[[1, 1], [1, 2], [1, 1]], nparams=2, mixed_name_containers=True)
     # no perturbation parameter at all (n_infinite = 0): the product is the plain block product
     add(blockdims=[[1, 2], [2, 1], [1, 1]], nparams=0, request_order=0, factor_order=0)
     add(blockdims=[[1, 1], [1, 2], [1, 1], [2]], nparams=0, request_order=0, factor_order=0)
